@@ -153,6 +153,7 @@ class C14(G.C13):
     KEYS = ("string", "startmap", "endmap", "tokens", "yy", "reparsed")
     modes = ["inorder", "inorder", "inorder", "any", "escapes", "empty"]
     want_tok = True
+    loader_stream = False
     rule = ("the programs and inputs of C13 weighted towards templates referencing groups 1..k in order (the "
             "characterizable case) with matched material outside groups, optional/empty/nested groups, deleting and "
             "length-changing rules, rule sequences, iterative groups, external groups, includes; tokenization "
